@@ -252,13 +252,20 @@ def run_sharded(cmd, lines, shards=None, env=None, timeout=3000):
     chunks = [lines[i::shards] for i in range(shards)]
 
     def work(chunk):
-        try:
-            rc, out, err = _run_lines(cmd, chunk, env=env, timeout=timeout)
-        except subprocess.TimeoutExpired:
-            return ["TIMEOUT"] * len(chunk)
-        if len(out) < len(chunk):
-            out = out + ["CRASH rc=%s %s" % (rc, err.strip()[-200:].replace("\n", " "))] * (len(chunk) - len(out))
-        return out[:len(chunk)]
+        done = []
+        while len(done) < len(chunk):
+            rest = chunk[len(done):]
+            try:
+                rc, out, err = _run_lines(cmd, rest, env=env, timeout=timeout)
+            except subprocess.TimeoutExpired:
+                return done + ["TIMEOUT"] * len(rest)
+            out = out[:len(rest)]
+            done += out
+            if len(out) < len(rest):
+                if out and out[-1].startswith("HANG"):
+                    continue          # the driver's watchdog ended the process on that case: go on with the next ones
+                done += ["CRASH rc=%s %s" % (rc, err.strip()[-200:].replace("\n", " "))] * (len(rest) - len(out))
+        return done
 
     with ThreadPoolExecutor(max_workers=shards) as ex:
         outs = list(ex.map(work, chunks))
